@@ -590,3 +590,8 @@ for (cols, rows) in ((1, 1), (2, 2), (3, 3)):
 
 ris(2, 2, 1, {"C19": Q, "C13": T}, parked_rows=3, sb=0, limit="Some(0)", limit_any="true", suffix="_anylimit")
 ris(2, 2, 0, {"C19": T}, sb=0, limit="Some(0)", limit_any="true", suffix="_anylimit")
+
+inst("base_unlimited__2x2", "terminal", "t_base_unlimited(2, 2)", 16, {"C02": T, "C01": T}, mem=16,
+     desc="Terminal::new((2,2), None) satisfies InvT (Buffer::new reserves 1000 lines)", bounds="2x2, unlimited")
+ris(2, 2, 0, {"C19": T}, sb=1, limit="None", suffix="_unlimited", mem=20)
+ris(2, 2, 1, {"C19": T}, parked_rows=2, sb=0, limit="None", suffix="_unlimited", mem=20)
